@@ -8,6 +8,9 @@
 (*           data, resources, sheet data, and for small images the pixels given,*)
 (*           the bytes stored and the pixels read                               *)
 (*   access  one Frame[x, y] read or write                                      *)
+(*   hist    a harness-written file with arbitrary, distinct mipmap contents, read  *)
+(*           lazily, optionally loaded / looked at / computed / cleared, saved and  *)
+(*           read again                                                             *)
 (*   synth   a file laid out by the harness from this specification, read by    *)
 (*           VTF.read (formats the pure-Python tree cannot write)               *)
 EXTENDS VtfLayoutOps, Json, IOUtils
@@ -121,7 +124,52 @@ SynthStep(r) ==
        ELSE IF r.fields # <<c.w, c.h, c.frames, c.depth, c.minor, c.fmt, c.low, c.lw, c.lh, c.mip>> THEN Bad("synth.fields", 0)
        ELSE Good
 
+\* --- read -> (load | look | compute | clear)* -> save -> read
+ApplyOp(lv, o) == CASE o.op = "load" -> HLoad(lv, o.sel)
+                    [] o.op = "look" -> HAccess(lv, o.m)
+                    [] o.op = "compute" -> HCompute(lv)
+                    [] o.op = "clear" -> HClear(lv, o.after)
+OpOK(lv, o) == CASE o.op = "load" -> CanLoad(lv, o.sel)
+                 [] o.op = "look" -> o.m < Len(lv) /\ lv[o.m + 1].st # "cleared"
+                 [] o.op = "compute" -> TRUE
+                 [] o.op = "clear" -> o.after >= 0
+RECURSIVE RunOps(_, _, _)
+RunOps(lv, ops, j) == IF j > Len(ops) THEN lv ELSE RunOps(ApplyOp(lv, ops[j]), ops, j + 1)
+RECURSIVE OpsOK(_, _, _)
+OpsOK(lv, ops, j) == j > Len(ops) \/ (OpOK(lv, ops[j]) /\ OpsOK(ApplyOp(lv, ops[j]), ops, j + 1))
+StoredAt(r, k) == r.stored[CHOOSE j \in 1..Len(r.stored) : r.stored[j].k = k]
+RECURSIVE HContent(_, _, _)
+\* the pixels level k must hold in the second file: those stored in the first one, or, if the level
+\* was erased, the average of the level above
+HContent(r, lv, k) ==
+    IF lv[k[3] + 1].st = "file" THEN DecodeImg(r.c.fmt, StoredAt(r, k).raw)
+    ELSE LET up == <<k[1], k[2], k[3] - 1>> IN
+         Average2x2(HContent(r, lv, up), StoredAt(r, up).w, StoredAt(r, up).h, StoredAt(r, k).w, StoredAt(r, k).h)
+HistStep(r) ==
+    LET c == r.c
+        f == c.fmt
+        e == Header(c)
+        lv0 == LvInit(c.mip)
+        lv == RunOps(lv0, r.ops, 1)
+        got == {KeyOf(r.keys[j]) : j \in 1..Len(r.keys)}
+        badraw == {j \in 1..Len(r.pix) : r.pix[j].raw # EncodeImg(f, HContent(r, lv, r.pix[j].k), 1)}
+        badout == {j \in 1..Len(r.pix) : r.pix[j].out # QuantImg(f, HContent(r, lv, r.pix[j].k))}
+    IN IF ~OpsOK(lv0, r.ops, 1) THEN Bad("hist.input", 0)
+       ELSE IF r.exc # "" THEN Bad("hist.raised", r.exc)
+       ELSE IF r.hdr.err # "" THEN Bad("hist.header", r.hdr.err)
+       ELSE IF <<r.hdr.minor, r.hdr.w, r.hdr.h, r.hdr.frames, r.hdr.fmt, r.hdr.mip, r.hdr.depth, r.hdr.hsize, r.hdr.entries, r.hdr.len>>
+               # <<e.minor, e.w, e.h, e.frames, e.fmt, e.mip, e.depth, e.hsize, e.entries, e.len>> THEN Bad("hist.header", e)
+       ELSE IF got # Keys(c, c.mip) \/ Len(r.keys) # Cardinality(got) \/ Len(r.pix) # Len(r.keys) THEN Bad("hist.keys", c.mip)
+       ELSE IF \E j \in 1..Len(r.keys) : <<r.keys[j][4], r.keys[j][5]>> # KeyDim(c, KeyOf(r.keys[j]))
+                                          \/ r.keys[j][6] # HiOff(c) + KeyOffset(c, c.mip, KeyOf(r.keys[j])) THEN Bad("hist.layout", HiOff(c))
+       ELSE IF badraw # {} THEN LET j == CHOOSE q \in badraw : TRUE IN
+                Bad("hist.bytes", [k |-> r.pix[j].k, raw |-> EncodeImg(f, HContent(r, lv, r.pix[j].k), 1)])
+       ELSE IF badout # {} THEN LET j == CHOOSE q \in badout : TRUE IN
+                Bad("hist.out", [k |-> r.pix[j].k, out |-> QuantImg(f, HContent(r, lv, r.pix[j].k))])
+       ELSE Good
+
 Verdict(r) == CASE r.k = "ctor" -> CtorStep(r)
+                [] r.k = "hist" -> HistStep(r)
                 [] r.k = "rt" -> RtFull(r)
                 [] r.k = "access" -> AccessStep(r)
                 [] r.k = "synth" -> SynthStep(r)
